@@ -17,7 +17,8 @@ LINEN_FUNCS = (S.in_filter, S.is_filter_empty, S.filter_to_set, S.union_filters,
 _LITS = [s for s in ast_string_literals(*LINEN_FUNCS) if ' ' not in s][:3]
 FILTER_NAMES = ['n0', 'n1'] + _LITS      # names a filter may mention
 FRESH = 'zz_unmentioned'                 # col value never mentioned by any filter
-COLS = FILTER_NAMES + [FRESH]
+SUBSTR = 'n'                            # a proper substring of mentioned names
+COLS = FILTER_NAMES + [FRESH, SUBSTR]
 NF = len(FILTER_NAMES)
 
 # syntactic forms; each takes two name indices
